@@ -1759,19 +1759,23 @@ func (d *Data) sendJSONValuesInRange(ctx storage.VersionedCtx, w http.ResponseWr
 	mdb, found := d.getMemDBbyVersion(ctx.VersionID())
 	if found {
 		go func() {
+			// Positions in the id list are only good while the lock is held (a DELETE shrinks the list),
+			// so take a copy of the ids in range and look each one up afterwards.
 			mdb.mu.RLock()
 			begI := sort.Search(len(mdb.ids), func(i int) bool { return mdb.ids[i] >= bodyidBeg })
 			endI := sort.Search(len(mdb.ids), func(i int) bool { return mdb.ids[i] > bodyidEnd })
+			var ids []uint64
+			if begI < endI {
+				ids = append(ids, mdb.ids[begI:endI]...)
+			}
 			mdb.mu.RUnlock()
 
-			for i := begI; i < endI; i++ {
+			for _, bodyid := range ids {
 				mdb.mu.RLock()
-				bodyid := mdb.ids[i]
 				jsonData, ok := mdb.data[bodyid]
 				mdb.mu.RUnlock()
 				if !ok {
-					dvid.Errorf("inconsistent neuronjson DB: bodyid %d at pos %d is not in db cache... skipping", bodyid, i)
-					continue
+					continue // deleted since the ids were listed
 				}
 				writeCh <- writeData{bodyid, jsonData}
 			}
